@@ -1,7 +1,7 @@
 (** C06 — RETE engine fires a rule exactly for live facts that satisfy it.
     Statements only; proofs in Proofs/IncrementalProofs.v.  Model of the repaired engine
     (fix commits a666833: condition re-checked at firing time; 26cddab: re-propagation by dependency). *)
-From RRE Require Import Base.Sx Generated.Consts Model.ReteAgenda Model.Incremental Proofs.IncrementalProofs Proofs.IncrementalViewsProofs.
+From RRE Require Import Base.Sx Generated.Consts Model.ReteAgenda Model.Incremental Proofs.IncrementalProofs Proofs.IncrementalViewsProofs Proofs.IncrementalOnceProofs.
 Open Scope Z_scope.
 
 (** every firing of fire_all is for a rule whose condition is true of the matched fact's contents
@@ -50,6 +50,53 @@ Theorem C06_handles_unique : forall sorted rs ops,
   NoDup (map f_h (wm (e_ x))) /\ forall h, In h (map f_h (wm (e_ x))) -> 1 <= h < next_h (e_ x).
 Proof. intros sorted rs ops. destruct (exec_inv sorted ops _ (init_inv rs)) as (A & _ & B). split; assumption. Qed.
 Print Assumptions C06_handles_unique.
+
+(** Exactly once (Proofs/IncrementalOnceProofs.v).  Rule sets of no-loop rules with inert actions and distinct names; any
+    history of insert / update / retract / fire_all (no reset) in which every fire_all fits the engine's iteration bound
+    ([fits]: number of rules + number of pending activations <= max_iterations, the bound read from the source).
+    Then a fire_all fires no rule twice, and it fires exactly the rules that have not fired since the start and whose
+    condition some live fact of their type satisfies at that moment; it records them as fired and leaves working memory unchanged. *)
+Theorem C06_fire_exactly_once : forall rs ops x' fs,
+  forallb r_noloop rs = true -> inert rs = true -> NoDup (map r_name rs) ->
+  let x0 := {| e_ := init rs; matched := [] |} in
+  let x := exec false x0 ops in
+  hist_ok rs x0 ops -> fits rs x -> fire_all x = (x', fs) ->
+  NoDup (map fi_rule fs) /\
+  (forall n, In n (map fi_rule fs) <->
+             ~ In n (fired x) /\ exists r f, In r rs /\ r_name r = n /\ In f (wm (e_ x)) /\ Sat r f) /\
+  fired x' = fired x ++ map fi_rule fs /\ wm (e_ x') = wm (e_ x).
+Proof. exact fire_exactly_once. Qed.
+Print Assumptions C06_fire_exactly_once.
+
+(** the property's sentence for the first fire_all of a session: it fires every rule that some live fact satisfies, exactly
+    once, and no other rule *)
+Theorem C06_first_fire_exactly_once : forall rs ops x' fs,
+  forallb r_noloop rs = true -> inert rs = true -> NoDup (map r_name rs) ->
+  forallb is_edit ops = true ->
+  let x := exec false {| e_ := init rs; matched := [] |} ops in
+  fits rs x -> fire_all x = (x', fs) ->
+  NoDup (map fi_rule fs) /\
+  forall n, In n (map fi_rule fs) <-> exists r f, In r rs /\ r_name r = n /\ In f (wm (e_ x)) /\ Sat r f.
+Proof. exact first_fire_exactly_once. Qed.
+Print Assumptions C06_first_fire_exactly_once.
+
+(** non-vacuity of the hypotheses: two no-loop inert rules, a history with a stale activation (the update makes rule 1 false
+    for fact 1), a retraction and a fire_all inside the history: the first fire_all (after four operations) fires rule 2 only;
+    a fire_all after the whole history fires rule 1 only (fact 3 satisfies it; rule 2 is satisfied by fact 4 but has fired). *)
+Example C06_once_example :
+  let r1 := {| r_name := 1; r_type := 0; r_prio := 0; r_noloop := true; r_cond := CAtom 0 CGt 100; r_action := ANop |} in
+  let r2 := {| r_name := 2; r_type := 0; r_prio := 5; r_noloop := true; r_cond := CAtom 0 CLt 50; r_action := ANop |} in
+  let rs := [r1; r2] in
+  let ops := [OInsert 0 [(0, 200)]; OUpdate 1 [(0, 5)]; OInsert 0 [(0, 70)]; ORetract 2; OFire; OInsert 0 [(0, 300)]; OInsert 0 [(0, 1)]] in
+  let x0 := {| e_ := init rs; matched := [] |} in
+  forallb r_noloop rs = true /\ inert rs = true /\ NoDup (map r_name rs) /\ hist_ok rs x0 ops /\ fits rs (exec false x0 ops)
+  /\ map fi_rule (snd (fire_all (exec false x0 (firstn 4 ops)))) = [2]
+  /\ map fi_rule (snd (fire_all (exec false x0 ops))) = [1].
+Proof.
+  cbv zeta. split; [reflexivity|]. split; [reflexivity|]. split; [repeat constructor; cbn; intuition discriminate|].
+  split; [cbn [hist_ok]; split; [unfold fits; vm_compute; discriminate|exact I]|]. split; [unfold fits; vm_compute; discriminate|].
+  split; vm_compute; reflexivity.
+Qed.
 
 (** non-vacuity: the pre-repair witness — insert amount 200, update to 5, fire_all fires nothing;
     and the monitor accepts the model's run *)
